@@ -217,6 +217,8 @@ def gen_setop(w, r, pure=False):
         for _ in range(k):
             args.append(_elem_pool(w, r, P, field, r.randrange(0, 4)))
         others = [(l, f) for (l, f) in cands if f == field and l != P]
+        if r.random() < 0.1:
+            others = [(P, field)]  # s.update(s)
         if others and r.random() < w.cfg.get("p_wrapper_arg", 0.2):
             q = pick(r, others)
             args.insert(r.randrange(len(args) + 1), _lazy_view(w, r, {"wrapper": [q[0], q[1]]}))
@@ -229,6 +231,8 @@ def gen_setop(w, r, pure=False):
     elif meth in ("ior", "ixor", "isub", "iand") and r.random() < w.cfg.get("p_wrapper_arg", 0.2):
         # the other owning collection itself as the argument ("move everything over")
         others = [(l, f) for (l, f) in cands if f == field and l != P]
+        if r.random() < 0.15:
+            others = [(P, field)]  # s |= s, s -= s, s &= s, s ^= s
         q = pick(r, others)
         if q is None:
             return None
